@@ -207,8 +207,12 @@ func (e *enc) scriptMode(o *Obligation, withValues []string, sliced bool) string
 		body.WriteString(d + "\n")
 	}
 	var keep []bool
+	at := o.At
+	if e.dropAt {
+		at = "true" // the goal without its path condition: a stronger statement, sliced to the goal's own cone
+	}
 	if sliced {
-		keep = sliceDefs(e.defs[:o.NDef], o.Goal+" "+o.At+" "+o.Extra)
+		keep = sliceDefs(e.defs[:o.NDef], o.Goal+" "+at+" "+o.Extra)
 	}
 	for i, d := range e.defs[:o.NDef] {
 		if keep != nil && !keep[i] {
@@ -216,7 +220,7 @@ func (e *enc) scriptMode(o *Obligation, withValues []string, sliced bool) string
 		}
 		body.WriteString("(assert " + d + ")\n")
 	}
-	tail := o.Extra + fmt.Sprintf("(assert %s)\n", o.At)
+	tail := o.Extra + fmt.Sprintf("(assert %s)\n", at)
 	if !o.Cover {
 		tail += fmt.Sprintf("(assert (not %s))\n", o.Goal)
 	}
